@@ -210,7 +210,10 @@ class StructCore(object):
                 res = res.ljust(self.size(psize), b"\0")
             return res
         else:
-            return parts[self.union]
+            # pack from the largest member (for this psize) and pad to the union's size:
+            sizes = [len(p) for p in parts]
+            res = parts[sizes.index(max(sizes))]
+            return res.ljust(self.size(psize), b"\0")
 
     def offset_of(self, name, psize=0):
         if self.union is not False:
